@@ -318,6 +318,20 @@ func (r *Run) buildInputs(fi *FuncInfo, m map[string]string, scalarName func(i i
 					p.setup = append(p.setup, fmt.Sprintf("(*%s)%s = %s", an, path, goLit(leafType(u.Elem(), path), v, qual)))
 				}
 			}
+		case *types.Struct:
+			p.setup = append(p.setup, fmt.Sprintf("var %s %s", an, types.TypeString(t, qual)))
+			var paths []string
+			cellPaths(t, "", &paths)
+			for _, path := range paths {
+				if strings.Contains(path, "#") {
+					continue
+				}
+				v := get(scalarName(i, path))
+				if v.Sign() != 0 {
+					p.setup = append(p.setup, fmt.Sprintf("%s%s = %s", an, path, goLit(leafType(t, path), v, qual)))
+				}
+			}
+			_ = u
 		case *types.Interface:
 			impls := r.W.ifaceImpls(t)
 			typ := get(scalarName(i, "#typ"))
